@@ -12,8 +12,8 @@ import math
 import random
 
 KEYWORDS = {'OPENQASM', 'include', 'qreg', 'creg', 'barrier', 'barrierp', 'gate', 'opaque',
-            'if', 'measure', 'reset', 'U', 'CX', 'pi', 'sin', 'cos', 'tan', 'EXP', 'ln',
-            'sqrt', 'exp'}
+            'if', 'measure', 'reset', 'U', 'CX', 'pi', 'sin', 'cos', 'tan', 'exp', 'ln',
+            'sqrt'}
 
 # ------------------------------------------------------------------ expressions
 # tree: ('num', text) ('pi',) ('var', name) ('neg', e) ('bin', op, l, r) ('pow', a, b)
@@ -163,8 +163,8 @@ NUMS = ['0', '1', '2', '3', '4', '7', '10', '0.5', '.5', '1.', '2.5', '0.25', '1
         '2E1', '1e+1', '1.e1', '3.25', '0.1', '12', '.125e1', '6.0', '1E0']
 
 
-def gen_expr(rng, depth, vars_, funs=('sin', 'cos', 'tan', 'ln'), pvar=0.35,
-             allow_var_base=False):
+def gen_expr(rng, depth, vars_, funs=('sin', 'cos', 'tan', 'ln', 'sqrt', 'exp'), pvar=0.35,
+             allow_var_base=True):
     if depth <= 0 or rng.random() < 0.25:
         r = rng.random()
         if vars_ and r < pvar:
@@ -204,12 +204,13 @@ EDGE_EXPRS = ['-2^2', '2^-1', '1-2-3', '8/4/2', '1e-3', '.5', 'pi/2', '2^3^2', '
               'ln(2)', '-sin(1)+1', 'sin(1+1)', '10', '0', '0.0', '2/4*2', '2-4+2', '-ln(2)',
               'cos(-1)', 'sin(1)^2', '2^sin(1)', '-2^0.5', '4^0.5^2', '3*-2^2', '- - 2',
               '1 - -1', '2 / -4', '-1^2', '5e-1', '2.5E+0', '00.5', '0e0']
-EDGE_PAREN = ['2*(1+2)', '(1+2)*3', '-(1+2)', '2-(3-4)', '(1+2)^2', '2^(1+1)', '2/(1+1)',
+EDGE_PAREN = ['(2^3)*2', '-(2^2)', '(sin(1))', '(-2)^3', '((1+2))*3', '(2*(1+2))', '(1e1-2^2)',
+              '2*(1+2)', '(1+2)*3', '-(1+2)', '2-(3-4)', '(1+2)^2', '2^(1+1)', '2/(1+1)',
               '((2+1))*2', '(-2)^2', 'sin((1+2)*3)', '8/(4/2)', '1-(2-3)', '(2*3)^2',
               '-(2-5)', '2^(-1+3)', 'cos((1-2)*pi)']
 EDGE_PAREN_OK = ['(2)', '(1+2)+3', '2+(3*4)', '(2*3)+1', '((1))', '(2^3)*2', '-(2^2)',
                  '2^(3)', '(pi)/2', 'sin((1))', '(sin(1))', '(2*3)*4', '(1-2)-3', '-(3)']
-EDGE_FUN = ['sqrt(2)/2', 'sqrt(4)', 'exp(1)', 'exp(0)+1', '2*sqrt(2)', 'EXP(1)']
+EDGE_FUN = ['sqrt(2)/2', 'sqrt(4)', 'exp(1)', 'exp(0)+1', '2*sqrt(2)', 'exp(-1)^2', 'sqrt(exp(2))']
 
 
 # ------------------------------------------------------------------ programs
@@ -327,12 +328,8 @@ def strip_grouping(etext):
 class Ref:
     """Reference elaboration of a structured program (the OpenQASM 2 meaning)."""
 
-    def __init__(self, builtins, mode='tree'):
+    def __init__(self, builtins):
         self.builtins = builtins          # spelling -> (np, nv)
-        # 'tree': the meaning.  'stripped' / 'textual': what a reader computes that drops
-        # grouping parentheses / additionally splices actual values in as text (the two known
-        # expression defects) -- used only to NAME a disagreement, never to excuse it.
-        self.mode = mode
         self.qregs = []
         self.cregs = []
         self.defs = {}
@@ -355,13 +352,7 @@ class Ref:
         return [o + arg[1]]
 
     def ev(self, e, env):
-        if self.mode == 'tree':
-            return e_eval(e, env)
-        src = toks_python(e_tokens(e, 1, random.Random(0), 0.0), True)
-        import warnings
-        with warnings.catch_warnings():
-            warnings.simplefilter('ignore')
-            return py_value(src, env, textual=(self.mode == 'textual'), numpy=True)
+        return e_eval(e, env)
 
     def inst(self, name, vals, loc):
         if name in self.defs:
@@ -402,7 +393,10 @@ class Ref:
             elif k == 'measure':
                 qs = self.flat(s[1])
                 cname = s[2][0]
-                cs = (list(range(dict(self.cregs)[cname])) if s[2][1] is None else [s[2][1]])
+                csz = dict(self.cregs)[cname]
+                if s[2][1] is not None and s[2][1] >= csz:
+                    raise Bad()              # classical bit outside its register
+                cs = list(range(csz)) if s[2][1] is None else [s[2][1]]
                 self.ops.append(('M', tuple(qs), tuple(sorted(
                     (q, cname, c) for q, c in zip(qs, cs)))))
             elif k == 'reset':
@@ -412,18 +406,12 @@ class Ref:
 
 
 def expr_for(rng, vars_, depth):
-    """A tree with finite value that avoids the two known expression defects of the reader:
-    it does not need its parentheses, and splicing (possibly negative) actual values in as
-    text does not change its meaning.  Both are decided by evaluation: the tree against its
-    parenthesis-free text, with the formals bound as values and spliced in as text, at
-    random positive and mixed-sign bindings.  Trees that trigger a defect are generated in
-    the dedicated `known` stream only."""
+    """A tree with a finite value at random (positive and mixed-sign) bindings of its
+    formals.  Parentheses, all six functions, formals anywhere (also as the base of `^`)."""
     for _ in range(200):
         e = gen_expr(rng, depth, vars_)
         ok = True
-        toks = e_tokens(e, 1, random.Random(0), 0.0)
-        src = toks_python(toks, True)
-        for k in range(4 if vars_ else 1):
+        for k in range(3 if vars_ else 1):
             lo = 0.3 if k < 2 else -2.7
             env = {v: rng.uniform(lo, 2.7) for v in vars_}
             try:
@@ -432,15 +420,8 @@ def expr_for(rng, vars_, depth):
                 if k < 2:
                     ok = False
                     break
-                continue          # undefined at this binding: irrelevant
-            try:
-                s = py_value(src, env)
-                t = py_value(src, env, textual=True) if vars_ else s
-            except Bad:
-                ok = False
-                break
-            if not (finite_ok(v) and finite_ok(s) and finite_ok(t)
-                    and close(v, s) and close(v, t)):
+                continue
+            if not finite_ok(v):
                 ok = False
                 break
         if ok:
@@ -486,15 +467,6 @@ def gen_program(rng, builtins, common, max_qubits=6, qiskit_ok=True):
                 for n, i in qs]
 
     def call_args(name, args):
-        # bqskit cannot read two or more leading bare register names: keep <= 1
-        lead = 0
-        for j, (n, i) in enumerate(args):
-            if i is None:
-                lead += 1
-            else:
-                break
-        if lead >= 2:
-            args = [(n, 0) if i is None else (n, i) for n, i in args]
         return args
 
     def actuals(name, n, vars_=()):
@@ -550,13 +522,14 @@ def gen_program(rng, builtins, common, max_qubits=6, qiskit_ok=True):
             continue
         if r < 0.44:
             k = rng.randint(1, min(3, sum(s for _, s in regs)))
-            if rng.random() < 0.3:
-                # a whole register, optionally followed by indexed qubits of other registers
-                n0, s0 = rng.choice(regs)
-                rest = [(n, i) for n, s in regs if n != n0 for i in range(s)]
+            if rng.random() < 0.4:
+                # whole registers, optionally mixed with indexed qubits of other registers
+                whole = rng.sample(regs, rng.randint(1, min(3, len(regs))))
+                names0 = {n for n, _ in whole}
+                rest = [(n, i) for n, s in regs if n not in names0 for i in range(s)]
                 extra = rng.sample(rest, min(len(rest), rng.randint(0, 2)))
-                args = [(n0, None)] + extra
-                if extra and rng.random() < 0.5:
+                args = [(n, None) for n, _ in whole] + extra
+                if rng.random() < 0.5:
                     rng.shuffle(args)
             else:
                 args = qubits(k)
@@ -569,13 +542,12 @@ def gen_program(rng, builtins, common, max_qubits=6, qiskit_ok=True):
                 n, _ = rng.choice(whole)
                 p.stmts.append(('measure', (n, None), (c, None)))
             else:
-                # indexed form: first register only (later registers hit a known defect)
-                p.stmts.append(('measure', (regs[0][0], rng.randrange(regs[0][1])),
-                                (c, rng.randrange(cs))))
+                n, s_ = rng.choice(regs)
+                p.stmts.append(('measure', (n, rng.randrange(s_)), (c, rng.randrange(cs))))
             continue
         if r < 0.55:
-            if rng.random() < 0.3:     # whole register: first register only (known defect)
-                p.stmts.append(('reset', (regs[0][0], None)))
+            if rng.random() < 0.3:
+                p.stmts.append(('reset', (rng.choice(regs)[0], None)))
             else:
                 n, s = rng.choice(regs)
                 p.stmts.append(('reset', (n, rng.randrange(s))))
